@@ -19,10 +19,10 @@ PROPS = {
                 confluent=True),
     "C05": dict(benches=["chain", "query", "saturate", "volume", "hier3"], caps=dict(quick=[1], thorough=[1, 2]),
                 invariants=[]),
-    "C06": dict(benches=["qloop", "qself", "saturate2", "saturate", "orphan", "orphan2", "hier", "qwrap0", "qwrap1", "qwrap2",
+    "C06": dict(benches=["qloop", "qself", "saturate2", "saturate", "orphan", "orphan2", "panic_inflight", "hier", "qwrap0", "qwrap1", "qwrap2",
                          "qwrap3"],
                 caps=dict(quick=[1, 2, 3], thorough=[1, 2, 3, 4, 5, 6, 7]), invariants=["QuiescentMeansDone"]),
-    "C14": dict(benches=["query", "query6"], caps=dict(quick=[1, 2], thorough=[1, 2, 4]), invariants=[]),
+    "C14": dict(benches=["query", "query6", "qpartial"], caps=dict(quick=[1, 2], thorough=[1, 2, 4]), invariants=[]),
     "C16": dict(benches=["hier", "hier3", "hpanic_P", "hpanic_P_a", "hpanic_P_b", "hpanic_P_a_x", "hpanic_Q"],
                 caps=dict(quick=[2], thorough=[1, 2, 3]), invariants=["InitOnceFirst"]),
 }
